@@ -34,6 +34,7 @@ package main
 //	racestart W                    hold the worker's first database read, Start, RemoveWallet at once (D10) -> accepted stopped | PANIC …
 //	await                          (after restart + start) wait until no wallet is importing / removing -> wallets string | TIMEOUT
 //	stop                           plain Stop with watchdog                                       -> stopped | HANG
+//	pfill K TAG | fullq I1;…;In retry:B | fullq I1;…;In batches     see eng_proto_fullq.go
 
 import (
 	"fmt"
@@ -191,6 +192,9 @@ type protoExec struct {
 	nbc     int
 	hangs   int
 	dead    bool // after a HANG / PANIC the environment is abandoned; ops answer "dead" until the next reset
+	// eng_proto_fullq.go
+	nfill    int
+	imported map[string]bool // throw-away wallets already imported through the API
 }
 
 func (x *protoExec) env() *WEnv {
@@ -201,6 +205,7 @@ func (x *protoExec) env() *WEnv {
 			e.wrapDB = func(d mwdb.DB) mwdb.DB { return &protoGateDB{inner: d, g: g} }
 		})
 		x.ext = map[string]string{}
+		x.imported = map[string]bool{}
 	}
 	return x.e
 }
@@ -217,6 +222,7 @@ func (x *protoExec) Reset() {
 	}
 	x.e.reset()
 	x.ext = map[string]string{}
+	x.imported = map[string]bool{}
 }
 
 // abandon drops an environment whose goroutines may still be alive (after a HANG the database stays open
@@ -263,6 +269,14 @@ func (x *protoExec) Exec(a []string) string {
 		return x.stopHold(strings.Split(a[1], ";"))
 	case a[0] == "await" && len(a) == 1:
 		return x.await()
+	case a[0] == "fullq" && len(a) == 3: // eng_proto_fullq.go
+		return x.fullQueue(strings.Split(a[1], ";"), a[2])
+	case a[0] == "pfill" && len(a) == 3:
+		k, err := strconv.Atoi(a[1])
+		if err != nil || k < 0 || k > 5000 {
+			return "bad-op"
+		}
+		return x.pfill(k, a[2])
 	case a[0] == "restart" && len(a) == 1:
 		if x.started {
 			return "bad-op"
@@ -667,6 +681,11 @@ func genProto(g *Gen) {
 	scs = append(scs, sc{"none", "now"}, sc{"none", "blocks:3"}, sc{"none", "handler:begin"})
 	for _, t := range []string{"remove", "import"} {
 		scs = append(scs, sc{t, "handler:begin"}, sc{t, "blocks:3"})
+	}
+	// the queue filled to the accept limit while the task in hand is re-queued (eng_proto_fullq.go): deterministic, cheap
+	for i := 0; i < g.Scale(1, 4); i++ {
+		genProtoFullQueue(g, "retry")
+		genProtoFullQueue(g, "batches")
 	}
 	// first of all: the placement whose outcome depends on the follower's random select, repeated inside one
 	// op (8 attempts: a skeleton that can hang there with probability 1/2 per attempt is caught with 1 - 2^-8)
